@@ -1,4 +1,297 @@
-import PprofVerif.Model.Symbolize
+import PprofVerif.Lemmas.SymWrap
+/-!
+# C12 — Symbolization only adds names; measurements are untouched
+
+Property theorems only (helper lemmas: `Lemmas/Sym{Basic,Frame,Valid,Final,Wrap}.lean`).  All theorems
+are about `Sym.symbolize` (`Model/Symbolize.lean`), the executable model of
+`Symbolizer.Symbolize` = mode parsing; `doLocalSymbolize`; `symbolz.Symbolize`; `Demangle`, and hold
+for **every** profile, mode string, source table and for **every** behaviour of the plug-ins: the
+object-file tool and the symbolz POST are arbitrary state machines (`ObjTool σ`, `Symz τ`, any
+`σ τ`), `url.Parse`, the response-line parser and `demangle.Filter` are arbitrary functions.
+The correspondence check (harness/c12.go) ties the model to the Go code on every run.
+The model is the repaired behaviour (fixes/C12-*.patch).
+-/
 namespace PV.Props.C12
 open PV PV.Sym
+
+variable {σ τ : Type}
+
+/-- **Frame condition.** Whatever the plug-ins answer: samples (count, order, values, labels,
+location-id lists) and all header fields are unchanged; every location keeps id, mapping and
+address, every mapping keeps id, start, limit, offset, file and build id, in table order; the
+existing functions stay in place with their id, system name, file name and start line. Only lines
+(with the folded flag), function names, new functions and the has-symbols flags can differ. -/
+theorem symbolize_frame_condition (env : Env σ τ) (mode : Str) (sources : Sources) (p : Profile)
+    (s : σ) (t : τ) :
+    let q := (symbolize env mode sources p s t).profile
+    q.samples = p.samples ∧ q.sampleType = p.sampleType ∧ q.defaultSampleType = p.defaultSampleType ∧
+    q.comments = p.comments ∧ q.docURL = p.docURL ∧ q.dropFrames = p.dropFrames ∧
+    q.keepFrames = p.keepFrames ∧ q.timeNanos = p.timeNanos ∧ q.durationNanos = p.durationNanos ∧
+    q.periodType = p.periodType ∧ q.period = p.period ∧
+    q.locations.map (fun l => (l.id, l.mappingID, l.address)) =
+      p.locations.map (fun l => (l.id, l.mappingID, l.address)) ∧
+    q.mappings.map (fun m => (m.id, m.start, m.limit, m.offset, m.file, m.buildID)) =
+      p.mappings.map (fun m => (m.id, m.start, m.limit, m.offset, m.file, m.buildID)) ∧
+    ∃ extra, q.functions.map (fun f => (f.id, f.systemName, f.filename, f.startLine)) =
+      p.functions.map (fun f => (f.id, f.systemName, f.filename, f.startLine)) ++ extra := by
+  intro q
+  cases hm : parseMode mode with
+  | none =>
+    have h := (symbolize_none env mode sources p s t hm).1
+    have hq : q = p := h
+    rw [hq]
+    exact ⟨rfl, rfl, rfl, rfl, rfl, rfl, rfl, rfl, rfl, rfl, rfl, rfl, rfl, [], by simp⟩
+  | some o =>
+    have h := (symbolize_some env mode sources p s t o hm).1
+    have hq : q = _ := h
+    rw [hq]
+    have hr := symbolizeTables_rel env o sources p s t
+    refine ⟨rfl, rfl, rfl, rfl, rfl, rfl, rfl, rfl, rfl, rfl, rfl, ?_, ?_, ?_⟩
+    · exact (hr.2.map_eq (f := fun l => (l.id, l.mappingID, l.address))
+        (g := fun l => (l.id, l.mappingID, l.address))
+        (fun a b r => by simp [r.1, r.2.1, r.2.2.1])).symm
+    · exact (hr.1.map_eq (f := fun m => (m.id, m.start, m.limit, m.offset, m.file, m.buildID))
+        (g := fun m => (m.id, m.start, m.limit, m.offset, m.file, m.buildID))
+        (fun a b r => by
+          obtain ⟨⟨h1, h2, h3, h4, h5, h6, _⟩, _⟩ := r
+          simp [h1, h2, h3, h4, h5, h6])).symm
+    · -- functions: the table is extended, then demangled (names only)
+      obtain ⟨extra, he, _⟩ := symbolizeTables_spec_ext env o sources p s t
+      simp only [finalFunctions]
+      split
+      · exact ⟨extra.map (fun f => (f.id, f.systemName, f.filename, f.startLine)), by rw [he]; simp⟩
+      · refine ⟨extra.map (fun f => (f.id, f.systemName, f.filename, f.startLine)), ?_⟩
+        rw [he]
+        simp only [demangle, List.map_map, List.map_append]
+        congr 1 <;> (apply List.map_congr_left; intro f _
+                     obtain ⟨a, b, c, d⟩ := demangleOne_frame env.filter o.force o.dmode f
+                     simp [a, b, c, d])
+
+/-- **Has-symbols flags only go from false to true**, mapping by mapping. -/
+theorem symbolize_flags_monotone (env : Env σ τ) (mode : Str) (sources : Sources) (p : Profile)
+    (s : σ) (t : τ) (i : Nat) (m : Mapping) (hm : p.mappings[i]? = some m) :
+    ∃ m', (symbolize env mode sources p s t).profile.mappings[i]? = some m' ∧
+      (m.hasFunctions = true → m'.hasFunctions = true) ∧ (m.hasFilenames = true → m'.hasFilenames = true) ∧
+      (m.hasLineNumbers = true → m'.hasLineNumbers = true) ∧
+      (m.hasInlineFrames = true → m'.hasInlineFrames = true) := by
+  cases hp : parseMode mode with
+  | none =>
+    rw [(symbolize_none env mode sources p s t hp).1]
+    exact ⟨m, hm, id, id, id, id⟩
+  | some o =>
+    rw [(symbolize_some env mode sources p s t o hp).1]
+    obtain ⟨m', hm', r⟩ := (symbolizeTables_rel env o sources p s t).1.get? i hm
+    obtain ⟨⟨_, _, _, _, _, _, f1, f2, f3, f4⟩, _⟩ := r
+    exact ⟨m', hm', f1, f2, f3, f4⟩
+
+/-- **The result is a valid profile with unique ids** (the re-check of fetch.go:117 cannot fail),
+provided the input is valid and the function-id counter did not overflow uint64 during the run
+(`wrapped` is the model's ghost flag for `maxFunctionID++` wrapping to 0; see
+`symbolize_not_wrapped` for a sufficient condition on the input). -/
+theorem symbolize_valid (env : Env σ τ) (mode : Str) (sources : Sources) (p : Profile) (s : σ) (t : τ)
+    (hv : p.Valid) (hw : (symbolize env mode sources p s t).wrapped = false) :
+    (symbolize env mode sources p s t).profile.Valid := by
+  unfold Profile.Valid at hv ⊢
+  cases hp : parseMode mode with
+  | none => rw [(symbolize_none env mode sources p s t hp).1]; exact hv
+  | some o =>
+    have hs := symbolize_some env mode sources p s t o hp
+    rw [hs.2] at hw
+    rw [hs.1]
+    have hr := symbolizeTables_rel env o sources p s t
+    have hsp := symbolizeTables_spec env o sources p s t (good_of_valid p hv) (locsIn_of_valid p hv)
+    have hgood : Good (symbolizeTables env o sources p s t).2.1.functions := hsp.1 hw
+    apply validB_replace p _ _ _ hv
+    · exact (hr.1.map_eq (f := fun m => m.id) (g := fun m => m.id) (fun a b r => r.1.1.symm)).symm
+    · exact (hr.2.map_eq (f := fun l => l.id) (g := fun l => l.id) (fun a b r => r.1.symm)).symm
+    · intro l' hl'
+      obtain ⟨l, hl, r⟩ := hr.2.mem_right hl'
+      exact ⟨l, hl, r.2.1⟩
+    · unfold finalFunctions
+      split
+      · exact hgood
+      · exact good_demangle _ _ _ _ hgood
+    · unfold finalFunctions
+      split
+      · exact hsp.2.2
+      · exact locsIn_demangle _ _ _ _ _ hsp.2.2
+
+/-- The hypothesis of `symbolize_valid` holds whenever the largest function id of the input plus
+the number of functions added by the run fits a uint64 (the repaired code allocates above the
+largest id in use; ids next to 2⁶⁴ are the one case it does not handle). -/
+theorem symbolize_not_wrapped (env : Env σ τ) (mode : Str) (sources : Sources) (p : Profile) (s : σ) (t : τ)
+    (h : maxFuncID p.functions +
+      ((symbolize env mode sources p s t).profile.functions.length - p.functions.length) < two64) :
+    (symbolize env mode sources p s t).wrapped = false := by
+  cases hp : parseMode mode with
+  | none => exact (symbolize_none env mode sources p s t hp).2
+  | some o =>
+    have hs := symbolize_some env mode sources p s t o hp
+    rw [hs.2]
+    rw [hs.1] at h
+    simp only [finalFunctions_length] at h
+    exact (symbolizeTables_winv env o sources p s t).2.2.2 h
+
+/-- **Mappings that already carry function names are left alone unless force is requested**: when
+the mode does not request force, such a mapping is returned unchanged (flags included), and every
+location of it is returned unchanged (same lines, same folded flag). "Requests force" is
+`(parseMode mode).force`: a `force` option or `demangle=full|none|templates`. -/
+theorem symbolize_respects_has_symbols (env : Env σ τ) (mode : Str) (sources : Sources) (p : Profile)
+    (s : σ) (t : τ) (o : Opts) (hp : parseMode mode = some o) (hforce : o.force = false) :
+    let q := (symbolize env mode sources p s t).profile
+    (∀ (i : Nat) (m : Mapping), p.mappings[i]? = some m → m.hasFunctions = true → q.mappings[i]? = some m) ∧
+    (∀ (i : Nat) (l : Location), p.locations[i]? = some l →
+        (∀ m ∈ p.mappings, m.id = l.mappingID → m.hasFunctions = true) → q.locations[i]? = some l) := by
+  intro q
+  have hq : q = _ := (symbolize_some env mode sources p s t o hp).1
+  rw [hq]
+  have hr := symbolizeTables_rel env o sources p s t
+  constructor
+  · intro i m hm hf
+    obtain ⟨m', hm', r⟩ := hr.1.get? i hm
+    have : m' = m := r.2 (fun ht => ht ⟨hforce, hf⟩)
+    rw [← this]; exact hm'
+  · intro i l hl hall
+    obtain ⟨l', hl', r⟩ := hr.2.get? i hl
+    have : l' = l := r.2.2.2 (fun ⟨m, hm, e, ht⟩ => ht ⟨hforce, hall m hm e⟩)
+    rw [← this]; exact hl'
+
+/-- When the mode disables the remote step (`local`, `fastlocal`), any of HasFunctions,
+HasFilenames, HasLineNumbers protects a mapping and its locations (symbolizer.go:159). -/
+theorem symbolize_respects_has_symbols_local (env : Env σ τ) (mode : Str) (sources : Sources)
+    (p : Profile) (s : σ) (t : τ) (o : Opts) (hp : parseMode mode = some o) (hforce : o.force = false)
+    (hremote : o.remote = false) :
+    let q := (symbolize env mode sources p s t).profile
+    let carries := fun m : Mapping => m.hasFunctions = true ∨ m.hasFilenames = true ∨ m.hasLineNumbers = true
+    (∀ (i : Nat) (m : Mapping), p.mappings[i]? = some m → carries m → q.mappings[i]? = some m) ∧
+    (∀ (i : Nat) (l : Location), p.locations[i]? = some l →
+        (∀ m ∈ p.mappings, m.id = l.mappingID → carries m) → q.locations[i]? = some l) := by
+  intro q carries
+  have hq : q = _ := (symbolize_some env mode sources p s t o hp).1
+  rw [hq]
+  have hr := symbolizeTables_rel_local env o sources p s t hremote
+  constructor
+  · intro i m hm hf
+    obtain ⟨m', hm', r⟩ := hr.1.get? i hm
+    have : m' = m := r.2 (fun ht => ht ⟨hforce, hf⟩)
+    rw [← this]; exact hm'
+  · intro i l hl hall
+    obtain ⟨l', hl', r⟩ := hr.2.get? i hl
+    have : l' = l := r.2.2.2 (fun ⟨m, hm, e, ht⟩ => ht ⟨hforce, hall m hm e⟩)
+    rw [← this]; exact hl'
+
+/-- Mode `none`/`no` returns the profile as it is. -/
+theorem symbolize_none_identity (env : Env σ τ) (mode : Str) (sources : Sources) (p : Profile)
+    (s : σ) (t : τ) (h : parseMode mode = none) : (symbolize env mode sources p s t).profile = p :=
+  (symbolize_none env mode sources p s t h).1
+
+/-- **`adjust`** (symbolz.go:184) computes `addr + offset` exactly and signals overflow exactly when
+the sum leaves the uint64 range — for every uint64 address and int64 offset, `MinInt64` included. -/
+theorem adjust_spec (addr : Nat) (off : Int) (ha : addr < two64)
+    (hlo : -(two63 : Int) ≤ off) (hhi : off < (two63 : Int)) :
+    adjust addr off =
+      if 0 ≤ (addr : Int) + off ∧ (addr : Int) + off < (two64 : Int)
+      then some ((addr : Int) + off).toNat else none :=
+  adjust_eq addr off ha hlo hhi
+
+/-- **`removeMatching`** only deletes bytes (the result is a subsequence of the name), is the
+identity on names without brackets, and drops a bracket group without nested brackets together
+with its brackets, continuing after it. -/
+theorem removeMatching_spec (a b : UInt8) (hab : a ≠ b) :
+    (∀ s, (removeMatching s a b).Sublist s) ∧
+    (∀ s, a ∉ s → b ∉ s → removeMatching s a b = s) ∧
+    (∀ pre mid post, a ∉ pre → b ∉ pre → a ∉ mid → b ∉ mid →
+      removeMatching (pre ++ a :: (mid ++ b :: post)) a b = pre ++ removeMatching post a b) :=
+  ⟨fun s => removeMatching_sublist s a b, fun s ha hb => removeMatching_noop s a b ha hb,
+   fun pre mid post h1 h2 h3 h4 => removeMatching_group pre mid post a b hab h1 h2 h3 h4⟩
+
+/-- **Demangling never replaces a non-empty name by an empty one**, assuming `demangle.Filter`
+returns a non-empty string for a non-empty argument: for every function, force flag and
+demangler mode; id, system name, file name and start line are unchanged. -/
+theorem demangle_nonempty (filter : List DOpt → Str → Str)
+    (hf : ∀ o s, s ≠ [] → filter o s ≠ []) (force : Bool) (dm : DMode) (fs : List Function)
+    (i : Nat) (f : Function) (hi : fs[i]? = some f) (hn : f.name ≠ []) :
+    ∃ g, (demangle filter force dm fs)[i]? = some g ∧ g.name ≠ [] ∧ g.id = f.id ∧
+      g.systemName = f.systemName ∧ g.filename = f.filename ∧ g.startLine = f.startLine := by
+  refine ⟨demangleOne filter force dm f, ?_, demangleOne_name_ne_nil filter hf force dm f hn,
+    demangleOne_frame filter force dm f⟩
+  simp [demangle, hi]
+
+/-- … and through the whole of `Symbolize`: an existing function with a non-empty name keeps a
+non-empty name, and a function created by symbolization (its name is the non-empty name the
+plug-in reported) does not end up with an empty name. -/
+theorem symbolize_names_nonempty (env : Env σ τ) (hf : ∀ o s, s ≠ [] → env.filter o s ≠ [])
+    (mode : Str) (sources : Sources) (p : Profile) (s : σ) (t : τ) :
+    let q := (symbolize env mode sources p s t).profile
+    (∀ (i : Nat) (f : Function), p.functions[i]? = some f → f.name ≠ [] →
+        ∃ g : Function, q.functions[i]? = some g ∧ g.name ≠ []) ∧
+    (∀ (i : Nat) (g : Function), p.functions.length ≤ i → q.functions[i]? = some g →
+        g.systemName ≠ [] → g.name ≠ []) := by
+  intro q
+  cases hm : parseMode mode with
+  | none =>
+    have hq : q = p := (symbolize_none env mode sources p s t hm).1
+    rw [hq]
+    refine ⟨fun i f h hn => ⟨f, h, hn⟩, ?_⟩
+    intro i g hi hg
+    have := List.getElem?_eq_none hi
+    rw [this] at hg; cases hg
+  | some o =>
+    have hq : q = _ := (symbolize_some env mode sources p s t o hm).1
+    rw [hq]
+    obtain ⟨extra, he, hex⟩ := symbolizeTables_spec_ext env o sources p s t
+    simp only [finalFunctions]
+    constructor
+    · intro i f hi hn
+      have hi' : (p.functions ++ extra)[i]? = some f := by
+        rw [List.getElem?_append_left (by
+          have := List.getElem?_eq_some_iff.mp hi; exact this.1)]; exact hi
+      split
+      · exact ⟨f, by rw [he]; exact hi', hn⟩
+      · obtain ⟨g, hg, hgn, _⟩ := demangle_nonempty env.filter hf o.force o.dmode
+          (symbolizeTables env o sources p s t).2.1.functions i f (by rw [he]; exact hi') hn
+        exact ⟨g, hg, hgn⟩
+    · intro i g hi hg hsys
+      split at hg
+      · rw [he, List.getElem?_append_right hi] at hg
+        have hmem : g ∈ extra := List.mem_of_getElem? hg
+        rw [hex g hmem]; exact hsys
+      · simp only [demangle, List.getElem?_map] at hg
+        cases hx : (symbolizeTables env o sources p s t).2.1.functions[i]? with
+        | none => rw [hx] at hg; simp at hg
+        | some f0 =>
+          rw [hx] at hg
+          simp only [Option.map_some, Option.some.injEq] at hg
+          rw [he, List.getElem?_append_right hi] at hx
+          have hmem : f0 ∈ extra := List.mem_of_getElem? hx
+          have hfr := demangleOne_frame env.filter o.force o.dmode f0
+          rw [← hg] at hsys ⊢
+          rw [hfr.2.1] at hsys
+          exact demangleOne_name_ne_nil env.filter hf o.force o.dmode f0 (by rw [hex f0 hmem]; exact hsys)
+
+/-! ### non-vacuity and the two defects of the pinned tree -/
+
+-- `adjust_spec`: the extreme arguments of symbolz_test.go's table
+example : adjust 18446744073709551615 1 = none ∧ adjust 9223372036854775808 (-9223372036854775808) = some 0 ∧
+    adjust 0 (-1) = none ∧ adjust 9223372036854775808 9223372036854775807 = some 18446744073709551615 := by
+  decide
+
+-- defect #11 of the pinned tree: stripping can delete the whole name; the repaired heuristic keeps it
+example : removeMatching b!"<unknown>" 60 62 = [] ∧
+    heuristicName (dmodeOptions .dflt) b!"<unknown>" = b!"<unknown>" := by decide
+
+-- `removeMatching_spec` instance: "foo::baz<double>(double)" → "foo::baz<double>"
+example : removeMatching b!"foo::baz<double>(double)" 40 41 = b!"foo::baz<double>" := by decide
+
+-- mode parsing: which modes request force (hypothesis of `symbolize_respects_has_symbols`)
+example : (parseMode b!"local").map (·.force) = some false ∧
+    (parseMode b!"remote:FORCE").map (·.force) = some true ∧
+    (parseMode b!"demangle=templates").map (·.force) = some true ∧
+    (parseMode b!"fastlocal").map (·.remote) = some false ∧ parseMode b!"local:none" = none := by decide
+
+-- defect #10 of the pinned tree: with an existing function id 5 and `len+1` allocation five new
+-- functions would reach id 5 again; the repaired allocation continues above the largest id
+example : ((FTab.rescan { functions := [{ id := 5, name := [], systemName := [], filename := [], startLine := 0 }],
+                          top := 0, wrapped := false }).alloc b!"f" [] 0).2 = 6 := by decide
+
 end PV.Props.C12
